@@ -54,7 +54,7 @@ def check_C20(tier, seed, replay=None):
                 print("VIOLATION property=C20 replay=%s" % replay)
             return 0 if ok else 1
         nscen = 79
-        rounds = 4 if tier == "quick" else 120
+        rounds = 6 if tier == "quick" else 120
         total = nscen * rounds
         outdir = os.path.join(b.scratch, "out")
         lines, crashes = fanout(exe, seed, total, tier, outdir, 100 if tier == "quick" else 1500)
@@ -187,7 +187,7 @@ def check_C18(tier, seed, replay=None):
             if not ok:
                 print("VIOLATION property=C18 replay=%s" % replay)
             return 0 if ok else 1
-        total = 40 if tier == "quick" else 800
+        total = 64 if tier == "quick" else 800
         outdir = os.path.join(b.scratch, "out")
         lines, crashes = fanout(exe, seed, total, tier, outdir, 120 if tier == "quick" else 1500)
         for c in crashes:
@@ -322,7 +322,7 @@ def check_C14(tier, seed, replay=None):
             if not ok:
                 print("VIOLATION property=C14 replay=%s" % replay)
             return 0 if ok else 1
-        total = 1600 if tier == "quick" else 90000
+        total = 2400 if tier == "quick" else 90000
         outdir = os.path.join(b.scratch, "out")
         lines, crashes = fanout(exes, seed, total, tier, outdir, 60 if tier == "quick" else 1300)
         for c in crashes:
@@ -436,9 +436,9 @@ def check_hist(prop, tier, seed, replay=None):
             return 0 if ok else 1
         nops = 72
         if prop == "C10":
-            total = nops * (64 if tier == "quick" else 2000)
+            total = nops * (96 if tier == "quick" else 2000)
         else:
-            total = nops * (48 if tier == "quick" else 1500)
+            total = nops * (64 if tier == "quick" else 1500)
         outdir = os.path.join(b.scratch, "out")
         budget = 100 if tier == "quick" else 1400
         lines, crashes = fanout(exes, seed, total, tier, outdir, budget)
@@ -676,7 +676,7 @@ def check_C12(tier, seed, replay=None):
             if not ok:
                 print("VIOLATION property=%s replay=%s" % (r.get("prop", "C12"), replay))
             return 0 if ok else 1
-        total = 12 * (150 if tier == "quick" else 3000)
+        total = 12 * (400 if tier == "quick" else 3000)
         outdir = os.path.join(b.scratch, "out")
         lines, crashes = fanout(exe, seed, total, tier, outdir, 90 if tier == "quick" else 1300)
         # cross-validation of the knob mechanism against builds with literal cache sizes (DESIGN 2.2)
@@ -800,7 +800,7 @@ def check_C15(tier, seed, replay=None):
             if not ok:
                 print("VIOLATION property=%s replay=%s" % (r.get("prop", "C15"), replay))
             return 0 if ok else 1
-        total = 1600 if tier == "quick" else 240000
+        total = 2400 if tier == "quick" else 240000
         outdir = os.path.join(b.scratch, "out")
         lines, crashes = fanout(exe, seed, total, tier, outdir, 100 if tier == "quick" else 1400)
         ctl_lines, cr2 = fanout(exe, seed, 32, tier, os.path.join(b.scratch, "out_ctl"), 100, extra=["control"])
@@ -919,7 +919,7 @@ def check_C16(tier, seed, replay=None):
             if not ok:
                 print("VIOLATION property=%s replay=%s" % (r.get("prop", "C16"), replay))
             return 0 if ok else 1
-        total = 18 * (160 if tier == "quick" else 2400)
+        total = 18 * (240 if tier == "quick" else 2400)
         outdir = os.path.join(b.scratch, "out")
         lines, crashes = fanout(exe, seed, total, tier, outdir, 100 if tier == "quick" else 1400)
         ctl_lines, cr2 = fanout(exe, seed, 32, tier, os.path.join(b.scratch, "out_ctl"), 100, extra=["control"])
